@@ -220,8 +220,14 @@ def action_obligations(rep: Report):
     # handle_fstring returns JoinedStr(values=b, **locs)
     tree = ast.parse(open(os.path.join(REPO, "peg_parser/subheader.py"), encoding="utf-8").read())
     fn = next((n for c in ast.walk(tree) if isinstance(c, ast.ClassDef) and c.name == "Parser" for n in c.body if isinstance(n, ast.FunctionDef) and n.name == "handle_fstring"), None)
-    rets = [ast.unparse(n.value) for n in ast.walk(fn) if isinstance(n, ast.Return)] if fn else []
-    if rets == ["ast.JoinedStr(values=b, **locs)"]:
+    rets = [n.value for n in ast.walk(fn) if isinstance(n, ast.Return)] if fn else []
+    parts = fn.args.args[2].arg if fn and len(fn.args.args) > 2 else None
+    kwname = fn.args.kwarg.arg if fn and fn.args.kwarg else None
+    good = (len(rets) == 1 and isinstance(rets[0], ast.Call) and ast.unparse(rets[0].func) == "ast.JoinedStr"
+            and any(k.arg == "values" and ast.unparse(k.value) == parts for k in rets[0].keywords)
+            and any(k.arg is None and ast.unparse(k.value) == kwname for k in rets[0].keywords))
+    rets = [ast.unparse(r) for r in rets]
+    if good:
         rep.ok("C10.builder.handle_fstring", "structural", "Parser.handle_fstring returns JoinedStr(values=<the parts it was given>, <the rule's span>) on its only return path",
                "syntactic", function="peg_parser/subheader.py:Parser.handle_fstring")
     else:
